@@ -136,6 +136,32 @@ Definition do_remove_o_fixed (loaded : nat -> bool) (x : nat) (rows : list nat) 
   else let sd1 := if sd_full sd then sd else load_for_o loaded rows [x] sd in
        if memn x (sd_items sd1) then sd_remove sd1 x else sd1.
 
+(* ---- the other side of a one-to-many relationship: which items have their reference attribute loaded, and what loading an item
+   does to the owner's SetData (Entity._db_set_ -> Attribute.db_update_reverse -> Set.db_reverse_add) *)
+Record ostate : Type := mkos { os_rows : list nat; os_sd : setdata; os_loaded : list nat }.
+
+(* an item's row is fetched for the first time (any query that returns it): if it points to this owner it becomes a known member *)
+Definition load_item (x : nat) (st : ostate) : ostate :=
+  if memn x (os_loaded st) then st
+  else mkos (os_rows st)
+            (if memn x (os_rows st) && negb (memn x (sd_items (os_sd st)))
+             then mksd (sd_items (os_sd st) ++ [x]) (sd_full (os_sd st)) (sd_added (os_sd st)) (sd_removed (os_sd st))
+                       (sd_absent (os_sd st)) (sd_count (os_sd st))
+             else os_sd st)
+            (x :: os_loaded st).
+
+Definition is_loaded (st : ostate) (y : nat) : bool := memn y (os_loaded st).
+Definition o_add (x : nat) (st : ostate) : ostate :=
+  mkos (os_rows st) (do_add_o (is_loaded st) x (os_rows st) (os_sd st))
+       (if sd_full (os_sd st) then os_loaded st else if memn x (sd_items (os_sd st)) then os_loaded st ++ diff (os_rows st) (os_loaded st) else os_loaded st).
+Definition o_remove (x : nat) (st : ostate) : ostate :=
+  mkos (os_rows st) (do_remove_o_fixed (is_loaded st) x (os_rows st) (os_sd st)) (os_loaded st).
+Definition o_flush (st : ostate) : ostate :=
+  mkos (flush_rows (os_rows st) (os_sd st)) (flush_sd (os_sd st)) (os_loaded st).
+(* a whole-collection load fetches every row of the owner: those items are loaded afterwards *)
+Definition o_load_full (st : ostate) : ostate :=
+  mkos (os_rows st) (load_full (os_rows st) (os_sd st)) (os_loaded st ++ diff (os_rows st) (os_loaded st)).
+
 (* ---- invariant, as a boolean for the correspondence run and as the hypothesis of the theorems *)
 Fixpoint nodupb (l : list nat) : bool := match l with [] => true | x :: r => negb (memn x r) && nodupb r end.
 Definition subsetb (a b : list nat) : bool := forallb (fun x => memn x b) a.
@@ -155,3 +181,15 @@ Definition optn_eqb (a b : option Z) : bool := match a, b with None, None => tru
 Definition sd_same (a b : setdata) : bool :=
   same_elems (sd_items a) (sd_items b) && Bool.eqb (sd_full a) (sd_full b) && same_elems (sd_added a) (sd_added b) &&
   same_elems (sd_removed a) (sd_removed b) && optn_eqb (sd_count a) (sd_count b).
+
+(* a query that returns item x (S.get, a select): flushes the pending changes first *)
+Definition o_autoflush (st : ostate) : ostate := if pending (os_sd st) then o_flush st else st.
+Definition query_item (x : nat) (st : ostate) : ostate := if memn x (os_loaded st) then st else load_item x (o_autoflush st).   (* found in the identity map: no SQL *)
+
+Definition linv_b (st : ostate) : bool :=
+  inv_b (os_rows st) (os_sd st) &&
+  forallb (fun x => negb (memn x (os_rows st)) || memn x (sd_items (os_sd st)) || memn x (sd_removed (os_sd st))) (os_loaded st) &&
+  subsetb (sd_added (os_sd st)) (os_loaded st) && subsetb (sd_removed (os_sd st)) (os_loaded st).
+
+Definition os_same (a b : ostate) : bool :=
+  same_elems (os_rows a) (os_rows b) && sd_same (os_sd a) (os_sd b) && same_elems (os_loaded a) (os_loaded b).
